@@ -125,8 +125,9 @@ def s1(ctx, rep):
         tv = loop[0].target.id if isinstance(loop[0].target, ast.Name) else None
         for st in loop[0].body:
             for x in walk_shallow(st):
-                if isinstance(x, ast.Call) and fn_name(x) == "append" and x.args and isinstance(x.args[0], ast.Call) \
-                        and U(x.args[0].func) == "json.loads" and U(x.args[0].args[0]) == tv:
+                from ..engine import deref
+                a0 = deref(r, x.args[0]) if isinstance(x, ast.Call) and fn_name(x) == "append" and x.args else None
+                if isinstance(a0, ast.Call) and U(a0.func) == "json.loads" and U(a0.args[0]) == tv:
                     ok = True
     rep.put(ok, "S1", "agreement", "retrieve: json.loads of each match appended in match order", r, None, "")
 
